@@ -778,7 +778,8 @@ class Gen:
                 q.having = ("bin", self.pick(["=", ">", "<", ">="]), self.agg_expr(scope), ("lit", self.pick([0, 1, 2]), INT))
         else:
             use_star = (f["stars"] and self.chance(0.12) and not getattr(q, "using_merged", False)
-                        and (f["stars"] != "single-source" or len(scope) == 1))
+                        and (f["stars"] != "single-source" or len(scope) == 1)
+                        and (f["stars"] != "base-only" or len(scope) == 1 or all(s2.kind == "table" for s2 in scope)))
             if use_star:
                 self.tags.add("star")
                 if self.chance(0.5) or len(scope) == 1:
